@@ -255,7 +255,12 @@ func (g *G) genAction(f *FlowSpec, nd *nodeDraft, loc J) J {
 			}
 			names := []string{"Authorization", "X-Contact", "Accept", "X-Bad"}
 			for i := 0; i < hn; i++ {
-				h[names[i]] = []string{"Token abc", "@contact.name", "@(1/0)", "@fields.nick", "@globals.org_name", "line\nbreak"}[t.Pick("headerval", 6)]
+				vals := []string{"Token abc", "@contact.name", "@(1/0)", "@fields.nick", "@globals.org_name", "line\nbreak"}
+				if g.P.AllowWebhookAfter {
+					// chained calls: something from the previous response goes into the next request
+					vals = append(vals, "Bearer @webhook.token", "@webhook", "@(webhook.session.id)")
+				}
+				h[names[i]] = vals[t.Pick("headerval", len(vals))]
 			}
 			a["headers"] = h
 		}
